@@ -10,7 +10,7 @@ import os, sys, json, subprocess, shutil, time
 HERE = os.path.dirname(os.path.abspath(__file__))
 VERIF = os.path.dirname(HERE)
 SEEDED = os.path.join(VERIF, "seeded")
-SCRATCH = "/tmp/serif-seedrun"
+SCRATCH = "/tmp/serif-seedrun-%d" % os.getpid()
 
 
 def sh(cmd, **kw):
